@@ -265,6 +265,36 @@ pub fn conclude(ctx: &Ctx, check: &str, stats: Stats, mut ev: Evidence, started:
 }
 
 /// Replays one saved case (strict: known findings are reported as violations too, with a note).
+/// Replay tier: every saved case under `dir` whose file name starts with `prefix` and whose case decodes for this campaign.
+pub fn replay_dir<C: Campaign>(c: &C, dir: &str, prefix: &str) -> Stats {
+    let mut regress = Stats::default();
+    let findings = known::load();
+    if let Ok(rd) = std::fs::read_dir(dir) {
+        let mut files: Vec<_> = rd.filter_map(|e| e.ok()).map(|e| e.path()).filter(|p| p.extension().map_or(false, |x| x == "json") && p.file_name().map_or(false, |n| n.to_string_lossy().starts_with(prefix))).collect();
+        files.sort();
+        for f in files {
+            let body: Value = match std::fs::read_to_string(&f).ok().and_then(|s| serde_json::from_str(&s).ok()) {
+                Some(b) => b,
+                None => continue,
+            };
+            let case: C::Case = match serde_json::from_value(body["case"].clone()) {
+                Ok(c) => c,
+                Err(_) => continue,
+            };
+            let rep = c.run_case(&case, 0);
+            let (unknown, kn) = triage(&findings, &rep);
+            regress.absorb(&rep);
+            for k in kn {
+                *regress.known_hits.entry((k.property, k.signature)).or_insert(0) += 1;
+            }
+            if let Some(v) = unknown.first() {
+                regress.failures.push((v.clone(), body["case"].clone()));
+            }
+        }
+    }
+    regress
+}
+
 pub fn replay<C: Campaign>(c: &C, path: &str) -> i32 {
     let body: Value = serde_json::from_str(&std::fs::read_to_string(path).expect("cannot read replay file")).expect("bad replay json");
     let case: C::Case = serde_json::from_value(body["case"].clone()).expect("replay case does not match this check");
